@@ -264,8 +264,38 @@ def run_equiv(sh, mon, n):
     srv.add_sub_command_config(add)
     cfg.create_command("list").default().add_argument("rest", Argument.MULTI_VALUED, "r").set_handler(lambda *a: 0)
     app = ConsoleApplication(cfg)
+    from clikit.config.default_application_config import DefaultApplicationConfig
+    from clikit.io.input_stream import StringInputStream
+    from clikit.io.output_stream import BufferedOutputStream
+
+    dcfg = DefaultApplicationConfig("app", "1")
+    dcfg.set_terminate_after_run(False)
+    dsrv = dcfg.create_command("server").add_alias("srv").add_argument("host", Argument.OPTIONAL, "h").add_option("port", "p", Option.REQUIRED_VALUE | Option.INTEGER, "p")
+    dsrv.set_description("server").set_handler(lambda *a: 0)
+    dadd = dsrv.create_sub_command("add").add_argument("rest", Argument.MULTI_VALUED, "r").add_option("force", "f", Option.NO_VALUE, "f")
+    dadd.set_description("add").set_handler(lambda *a: 0)
+    dapp = ConsoleApplication(dcfg)
+    run_words = ["help", "server", "srv", "add", "--help", "-h", "--", "x y", "-q", "--version", "w", "--port=5", "-f", ""]
+
+    def run_app(raw):
+        o, e = BufferedOutputStream(), BufferedOutputStream()
+        st = dapp.run(raw, StringInputStream(""), o, e)
+        return (st, o.fetch(), e.fetch())
+
     words = ["server", "srv", "add", "plus", "list", "x y", "it's", 'q"t', "", "-f", "--force", "--port=5", "-p", "7", "--", "w", "--zeta", "tab\there"]
     for i in range(n):
+        if i % 5 == 4:
+            # a whole run (resolution, help command, global switches) must not tell the two forms apart
+            toks = [rng.choice(run_words) for _ in range(rng.randint(0, 4))]
+            styles = [styles_for(rng, t) for t in toks]
+            s = rng.choice(SEPS[:6]).join(quoting.render(t, st) for t, st in zip(toks, styles))
+            rec = {"kind": "equiv-run", "tokens": toks, "string": s}
+            sh.case("run:" + s, True)
+            a, b = outcome(lambda: run_app(api.StringArgs(s))), outcome(lambda: run_app(api.ArgvArgs(["prog"] + toks)))
+            sh.count("equiv_runs")
+            if a != b:
+                sh.violate("string-argv-equivalence", rec, "a run of %r differs: string form %r, argv form %r" % (toks, str(a)[:160], str(b)[:160]))
+            continue
         if i % 2:
             f = argline.gen_format(ch)
             fmt = api.build(f)
@@ -319,7 +349,7 @@ def finalize(tier, merged):
     inc = []
     if not c.get("tokenizer_steps"):
         inc.append("step monitor observed no activation inside the tokenizer file (termination clause undecided)")
-    for k in ("strings_tokenised", "roundtrips", "equiv_parses", "equiv_resolutions"):
+    for k in ("strings_tokenised", "roundtrips", "equiv_parses", "equiv_resolutions", "equiv_runs"):
         if not c.get(k):
             inc.append("counter %s is zero" % k)
     ratio = max([n.get("max_steps_per_char", 0) for n in merged["notes"]] or [0])
